@@ -233,6 +233,7 @@ def main():
     except Exception:  # noqa: BLE001
         traceback.print_exc()
         return 2
+    ctx.t_gen = __import__('time').time()
     if tier == 'thorough' and os.environ.get('VERIF_NO_SHARDS') != '1':
         # thorough: the generators run as independent shards on all cores, each with its own
         # sub-seed and time budget; the parent aggregates what they covered and found
